@@ -122,6 +122,10 @@ func (g *GcsEmu) Handler(w http.ResponseWriter, r *http.Request) {
 
 	switch r.Method {
 	case "DELETE":
+		if bucket == "" {
+			g.gapiError(w, http.StatusBadRequest, "missing bucket name")
+			return
+		}
 		g.handleGcsDelete(ctx, w, bucket, object, conds)
 	case "GET":
 		if object == "" {
